@@ -63,7 +63,7 @@ func runC11(r *vf.Run) {
 		"texts mix literals and placeholders (repeated, out of order, gaps), argument lists are exact, too few or too many; statements are executed 1-6 times with different arguments; " +
 		"distinct_nontrivial = distinct (query text, argument list, path) triples")
 	r.Assume("arguments are strings and integers", "column names are identifiers of the query language")
-	n := r.Pick(60, 300)
+	n := r.Pick(60, 2500)
 	var ids []string
 	for i := 0; i < n; i++ {
 		ids = append(ids, fmt.Sprintf("ds%03d", i))
@@ -135,6 +135,7 @@ func runC11(r *vf.Run) {
 				continue
 			}
 			execs := 1 + rng.Intn(6)
+			var prevStr []string
 			for x := 0; x < execs; x++ {
 				// argument list for this execution: the original values, or other values of the columns
 				curArgs := append([]any{}, args...)
@@ -161,6 +162,24 @@ func runC11(r *vf.Run) {
 						}
 					}
 				}
+				if x > 0 && len(prevStr) >= 2 && len(prevStr) == len(curStr) && rng.Intn(3) == 0 {
+					// the same bytes as the previous execution, split differently between two neighbouring arguments:
+					// ("x"+sep+"y", "z") then ("x", "y"+sep+"z")
+					sep := []string{"\x00", ",", " ", "|", ";", "\x1f", "", "\n", "$"}[rng.Intn(9)]
+					i := rng.Intn(len(prevStr) - 1)
+					joined := prevStr[i] + sep + prevStr[i+1]
+					cut := 0
+					if len(joined) > 0 {
+						cut = rng.Intn(len(joined) + 1)
+					}
+					for k := range curStr {
+						curStr[k], curArgs[k] = prevStr[k], any(prevStr[k])
+					}
+					curStr[i], curStr[i+1] = joined[:cut], joined[cut:]
+					curArgs[i], curArgs[i+1] = curStr[i], curStr[i+1]
+					r.Count("executions_with_resplit_arguments", 1)
+				}
+				prevStr = append([]string{}, curStr...)
 				kind := "exact"
 				switch rng.Intn(6) {
 				case 0:
